@@ -12,7 +12,7 @@ from vmon.oracles import ciftok
 ID = "C20"
 LEVEL = "exploration"
 RULE = (
-    "cases: generated mmCIF documents (1-5 categories, key-value and loop_, values plain/single-quoted/double-quoted/multi-word/"
+    "cases: generated mmCIF documents (1-3 data blocks, 1-5 categories each, key-value and loop_, values plain/single-quoted/double-quoted/multi-word/"
     "multi-line/'?'/'.') and corpus mmCIF files x operation (copy_from_to onto an existing item, onto a new item, replace_value "
     "with alphabets longer/shorter than the number of distinct values, absent category, absent source item) x entry point "
     "(library function; transformer.main in-process with the same arguments). Input and output are parsed with an independent "
@@ -24,7 +24,7 @@ ASSUMPTIONS = [
     "replace_value with more distinct values than alphabet symbols is outside the statement (skipped, counted)",
 ]
 REQUIRED_MONITORS = ["transformer.copy_from_to", "transformer.replace_value", "transformer.main"]
-REQUIRED_CLAUSES = ["copy.frame-preserved", "copy.target-equals-source", "replace.frame-preserved", "replace.mapping-injective-first-seen", "absent.untouched", "cli.equals-library"]
+REQUIRED_CLAUSES = ["copy.other-blocks-preserved", "replace.other-blocks-preserved", "copy.frame-preserved", "copy.target-equals-source", "replace.frame-preserved", "replace.mapping-injective-first-seen", "absent.untouched", "cli.equals-library"]
 LANDMARKS = {
     "copy-new-column": ("copy_from_to", "attributes.append(copy_to)"),
     "copy-existing": ("copy_from_to", "row[j] = row[i]"),
@@ -73,6 +73,37 @@ def _others_equal(fi, fo, cat, item, new_item):
     return msg, None
 
 
+def _other_blocks(text_in, text_out):
+    """Blocks after the first (the library edits the first block only) must be
+    preserved: same count, names, categories, items, rows.  Returns
+    (problem, mechanism, n_blocks)."""
+    bi, bo = ciftok.frames(text_in), ciftok.frames(text_out)
+    if len(bi) < 2 and len(bo) < 2:
+        return None, None, len(bi)
+    if [b["name"] for b in bi] != [b["name"] for b in bo]:
+        return f"data blocks changed: {[b['name'] for b in bi]} -> {[b['name'] for b in bo]}", None, len(bi)
+    diffs = []
+    for a, b in zip(bi[1:], bo[1:]):
+        if sorted(a["order"]) != sorted(b["order"]):
+            return f"category set of block {a['name']} changed: {a['order'][:8]} -> {b['order'][:8]}", None, len(bi)
+        for c in a["order"]:
+            if a["cats"][c][0] != b["cats"][c][0]:
+                return f"item list of {c} in block {a['name']} changed", None, len(bi)
+            if len(a["cats"][c][1]) != len(b["cats"][c][1]):
+                return f"row count of {c} in block {a['name']} changed", None, len(bi)
+            for k, (ra, rb) in enumerate(zip(a["cats"][c][1], b["cats"][c][1])):
+                for j, (va, vb) in enumerate(zip(ra, rb)):
+                    if va != vb:
+                        diffs.append((a["name"], c, k, a["cats"][c][0][j], va, vb))
+    if not diffs:
+        return None, None, len(bi)
+    d = diffs[0]
+    msg = f"block {d[0]} row {d[2]} of {d[1]}: item {d[3]} changed {d[4]!r} -> {d[5]!r} ({len(diffs)} cell(s) differ)"
+    if all(x[4] == "" and x[5] == "." for x in diffs):
+        return msg, "empty-string-value-rewritten-as-dot", len(bi)
+    return msg, None, len(bi)
+
+
 def _post_copy(snap, result, exc, args, kwargs):
     rec = _cur["rec"]
     if snap is None:
@@ -98,6 +129,9 @@ def _post_copy(snap, result, exc, args, kwargs):
     new_item = dst not in fi["cats"][cat][0]
     prob, mech = _others_equal(fi, fo, cat, dst, new_item)
     rec.check("copy.frame-preserved", prob is None, lambda: det(prob), mechanism=mech)
+    pb, mb, nb = _other_blocks(text, result)
+    if nb > 1:
+        rec.check("copy.other-blocks-preserved", pb is None, lambda: det(pb), mechanism=mb)
     if mech:
         prob = None
     if prob is None:
@@ -149,6 +183,9 @@ def _post_replace(snap, result, exc, args, kwargs):
         return
     prob, mech = _others_equal(fi, fo, cat, col, False)
     rec.check("replace.frame-preserved", prob is None, lambda: det(prob), mechanism=mech)
+    pb, mb, nb = _other_blocks(text, out)
+    if nb > 1:
+        rec.check("replace.other-blocks-preserved", pb is None, lambda: det(pb), mechanism=mb)
     if mech:
         prob = None
     if prob is None:
@@ -303,11 +340,19 @@ def run_case(case, rec):
     if case["family"] == "generated":
         rng = random.Random(f"{seed}:C20:g:{case['i']}")
         cats = make_doc(rng)
-        text = ciftok.emit("gen", cats)
+        blocks = [("gen", cats)]
+        if case["i"] % 4 == 3:
+            # multi-block documents: the library edits the first block; later
+            # blocks (which may repeat its category names) must survive
+            for b in range(rng.randint(1, 2)):
+                blocks.append((rng.choice(["restraints", "model2", "B", "gen_b"]) + str(b), make_doc(rng)))
+        text = ciftok.emit_blocks(blocks)
         # emitter/tokenizer self check against the known abstract content
         try:
-            fr = ciftok.frame(text)
-            same = fr["order"] == [c[0] for c in cats] and all(fr["cats"][c[0]] == (c[1], c[2]) for c in cats)
+            frs = ciftok.frames(text)
+            same = len(frs) == len(blocks) and all(
+                fr["name"] == nm and fr["order"] == [c[0] for c in cs] and all(fr["cats"][c[0]] == (c[1], c[2]) for c in cs)
+                for fr, (nm, cs) in zip(frs, blocks))
         except ciftok.CifError:
             same = False
         if not same:
